@@ -282,11 +282,19 @@ package sshfx
 //@   property C08, C19
 //@   alloc-bound 2*len(data) + 1024
 //@   loop 1 invariant bufOK(buf) && (buf.Err == nil || buf.off == len(buf.b)) && len(buf.b) == len(data) && len(p.Extensions) >= 0 && len(p.Extensions) * 8 <= buf.off
+//@   loop 1 invariant len(data) < 4 ==> buf.Err != nil
+//@   ensures len(data) < 4 ==> err != nil
+//@   ensures err == nil ==> p.Version == be32(data, 0)
+// (a body that ends inside the version word is an error, not version 0)
 
 //@ func (*VersionPacket).UnmarshalBinary
 //@   property C08, C19
 //@   alloc-bound 2*len(data) + 1024
 //@   loop 1 invariant bufOK(buf) && (buf.Err == nil || buf.off == len(buf.b)) && len(buf.b) == len(data) && len(p.Extensions) >= 0 && len(p.Extensions) * 8 <= buf.off
+//@   loop 1 invariant len(data) < 4 ==> buf.Err != nil
+//@   ensures len(data) < 4 ==> err != nil
+//@   ensures err == nil ==> p.Version == be32(data, 0)
+// (a body that ends inside the version word is an error, not version 0)
 
 // ---------------------------------------------------------------------------
 // per-packet body decoders (generated list)
